@@ -124,8 +124,8 @@ def sched_program(rng, provider, ternary):
 
     def inputs(rng):
         n = rng.choice([3, 4, 5, 6])                 # element domain
-        nk = rng.choice([1, 2, 3]) if ternary else 1
-        shape = rng.choice(['chain', 'cycle', 'random', 'merge', 'pause', 'selfloop', 'dense'])
+        nk = rng.choice([1, 2, 3, 3, 5, 9, 17]) if ternary else 1
+        shape = rng.choice(['chain', 'cycle', 'random', 'merge', 'pause', 'selfloop', 'dense'] + (['fanout', 'samefact'] if ternary else []))
         facts = []                                   # facts to be inserted in order, one per iteration
 
         def fact(k, x, y):
@@ -144,14 +144,26 @@ def sched_program(rng, provider, ternary):
             # key 0 active, then silent while key 1 is active, then active again (F4 / F6 region)
             k1 = 1 if nk > 1 else 0
             facts = [fact(0, 0, 1), fact(k1, 0, 1), fact(k1, 1, 2), fact(k1, 2, 0), fact(0, 1, 2), fact(0, 2, 3 % n)]
+        elif shape == 'fanout':
+            # an element known under one key turns up, within a single later iteration, under several other keys at once
+            e = rng.randrange(n)
+            facts = [fact(0, e, (e + 1) % n), fact(0, (e + 1) % n, (e + 2) % n)]
+            facts += [fact(k, e, rng.randrange(n)) for k in range(1, nk)] + [fact(rng.randrange(nk), rng.randrange(n), e)]
+        elif shape == 'samefact':
+            # many keys, few distinct endpoints: every key holds the same one or two edges
+            a, b = rng.randrange(n), rng.randrange(n)
+            facts = [fact(k, a, b) for k in range(nk)] + ([fact(k, b, (b + 1) % n) for k in range(nk)] if rng.random() < 0.4 else [])
         elif shape == 'dense':
             facts = [fact(rng.randrange(nk), rng.randrange(n), rng.randrange(n)) for _ in range(rng.randrange(n, 3 * n))]
         else:
             facts = [fact(rng.randrange(nk), rng.randrange(n), rng.randrange(n)) for _ in range(rng.randrange(1, 2 * n))]
-        mode = rng.choice(['all_at_once', 'one_per_iteration', 'mixed'])
+        mode = rng.choice(['all_at_once', 'one_per_iteration', 'mixed'] + (['burst'] if shape == 'fanout' else []))
         rows = []
         if mode == 'all_at_once' or len(facts) == 1:
             rows += [('seed', f) for f in facts]
+        elif mode == 'burst':
+            # the first two facts one per iteration, all the others in the iteration after
+            rows += [('seed', facts[0]), ('feed', facts[0] + facts[1])] + [('feed', facts[1] + f) for f in facts[2:]]
         else:
             nseed = 1 if mode == 'one_per_iteration' else rng.randrange(1, len(facts))
             rows += [('seed', f) for f in facts[:nseed]]
@@ -162,7 +174,7 @@ def sched_program(rng, provider, ternary):
                     prev = f
         dom = list(range(n))
         for qn in ('q', 'q2', 'q3'):
-            for x in rng.sample(dom, rng.randrange(0, n + 1)):
+            for x in (dom if rng.random() < 0.3 else rng.sample(dom, rng.randrange(0, n + 1))):
                 rows.append((qn, (x,)))
         rows += probe_rows(rng, n, nk)
         rows = list(dict.fromkeys(rows))
